@@ -64,7 +64,7 @@ through the scatter `Y[idx] = X` (last write wins) — kernel-level witness: par
 columns `[0, 0]`, operand `I₂`: the code gives `[0 1]`, the represented matrix is `[1 1]`. -/
 theorem C20_dupIx_clause_needed :
     let A : MatF Int := fun _ j => if j = 0 then 1 else 2
-    let act : MatF Int → MatF Int := fun Y => mmul 2 A Y
+    let act : MatF Int → MatV Int := fun Y => MatV.of (mmul 2 A Y)
     (slicedMatmat act [0] [0, 0] eyeM).f 0 0 = 0 ∧ slicedDen A [0] [0, 0] 0 0 = 1 := by
   decide
 
